@@ -60,6 +60,7 @@ type Ctx struct {
 	tmplErr error
 
 	loaded []*packages.Package
+	alias  *aliasAnalysis
 	obs   []Ob
 	notes []string // assumptions / remarks for the evidence file
 }
